@@ -386,6 +386,16 @@ def m_vec_append(eng, m, args, dest_ts, st, where):
 
 
 # ---------------------------------------------------------------------------------------------- iterators
+@model('Option::into_iter / iter', r'^<Option<.+> as IntoIterator>::into_iter$|^<&Option<.+> as IntoIterator>::into_iter$|^Option::<.+>::iter$')
+def m_option_iter(eng, m, args, dest_ts, st, where):
+    v = deref(eng, st, args[0])                # an iterator over zero or one element
+    some = is_variant(v, 'Some')
+    x = payload(v, 'Some')[0] if not z3.is_false(z3.simplify(some)) else None
+    if x is None:
+        return It('src', Vc(TVec(None, 1), bv(0, 64), [None], 0), bv(0, 64))
+    return It('src', Vc(TVec(None, 1), z3.If(some, bv(1, 64), bv(0, 64)), [x], 1), bv(0, 64))
+
+
 @model('iter', r'^(?:<&(?:mut )?Vec<.+> as IntoIterator>::into_iter|<Vec<.+> as IntoIterator>::into_iter|core::slice::<impl \[.+\]>::iter(?:_mut)?|<std::slice::Iter<.+> as IntoIterator>::into_iter|<&(?:mut )?\[.+\] as IntoIterator>::into_iter|<\[.+; \d+\] as IntoIterator>::into_iter|<std::array::IntoIter<.+> as IntoIterator>::into_iter|Vec::<.+>::iter(?:_mut)?|Vec::<.+>::into_iter)$')
 def m_iter(eng, m, args, dest_ts, st, where):
     v = deref(eng, st, args[0])
@@ -761,8 +771,10 @@ def m_hash(eng, m, args, dest_ts, st, where):
 def m_fn_call(eng, m, args, dest_ts, st, where):
     clo = deref(eng, st, args[0])
     tup = args[1]
+    if isinstance(tup, Opq) and tup.what.strip() in ('const ()', '()'):
+        tup = UNITV                                # `f()`: the argument tuple is the unit constant
     if not isinstance(clo, Clo) or not isinstance(tup, St):
-        raise Unsupported('Fn::call on %r' % (clo,))
+        raise Unsupported('Fn::call on %r with %r' % (clo, tup))
     return eng.call_closure(clo, list(tup.fs), st, where)
 
 
